@@ -773,8 +773,7 @@ Proof.
   intros fuel s t Hs Ht Hg Hfuel. split.
   - apply unify_value_fails_iff; auto.
     destruct (unify_value fuel s t []) as [r H|e|] eqn:Hrun; simpl; auto.
-    + apply (unify_value_one_side_ground_solved fuel s t r H Hs Ht Hg Hrun).
-    + exfalso. apply Hfuel. auto.
+    apply (unify_value_one_side_ground_solved fuel s t r H Hs Ht Hg Hrun).
   - intros r H Hrun. apply (unify_value_solved_mgu fuel s t r H Hs Ht Hrun).
     apply (unify_value_one_side_ground_solved fuel s t r H Hs Ht Hg Hrun).
 Qed.
